@@ -119,7 +119,7 @@ def _replay_attr(cls, tag, d):
         st = d.simple_type
         if hasattr(st, "__members__"):
             vals += list(st)[:6]
-        vals += [0, 1, -1, 5, 1.5, 100000, True, "x"]
+        vals += [0, 1, -1, 5, 1.5, 100000, True, "x", 1234567.5, 0.1234567, 98765.4321, 2.5e-7]
         for v in vals:
             import fractions
 
